@@ -218,3 +218,129 @@ Example C14_run_Q :
   interp_approx (T:=Q) false [1; 3; 2]%Q 2%Q 1%Q = ([1; 2; 3; 5 # 2; 2; 2]%Q, 1%Q) /\
   interp_approx (T:=Q) true [1; 3; 2; 7; 5]%Q 1%Q 2%Q = ([1; 2]%Q, 2%Q).
 Proof. split; vm_compute; reflexivity. Qed.
+
+(** * Source-text tie.  translator/py2coq_c14.py (Python ast, fail closed, re-run by every check) turns
+    interp_array_to_approx_dt, interp_to_approx_dt and resample_to_approx_dt of eqsig/fns/time_step.py into
+    gen/Gen_c14.v: one definition per function, every assignment a `let` named by its position (a renamed temporary gives
+    the same text), generic over a record [FlOps F] of float operations; Python's int / float arithmetic is the fixed
+    Gallina text in the header of that file ([pynum], [py_div], [py_mul], [py_int], [py_int_ceil], [np_floor],
+    [np_arange], ...).  np.interp and scipy.signal.resample are variables of the generated Section (oracles).
+    The theorems below read the SAME generated text twice -- with the exact operations [FlNum] of [NumOps R] and with the
+    binary64 operations [FlB64] of lib/B64.v (fdiv, fmul, fofZ, fcmp, ffloor, fceil, ftrunc) -- and prove it equal to the
+    hand model for ALL inputs (proofs/P_gen_c14.v).  A changed operand, operator, literal, comparison, branch or call in
+    the source changes the generated text and breaks one of these proofs.
+    Trusted: the translator's reading listed in the header of gen/Gen_c14.v; for the array function, that np.interp on
+    the unit grid np.arange(len(v)) is the model's [np_interp] (hypothesis of the theorems, met by the model itself:
+    [C14_source_nonvacuous]; tied to NumPy by the correspondence). *)
+From EQ Require Import gen.Gen_c14 proofs.P_gen_c14.
+
+(** exact reading: the generated functions ARE [interp_approx] / [resample_approx] *)
+Theorem C14_interp_array_is_source : forall (I : list R -> list R -> list R -> list R),
+  (forall ts v, I ts (map IZR (zrange (Z.of_nat (length v)))) v = map (np_interp v) ts) ->
+  forall even (v : list R) dt tg,
+  let r := gen_interp_array_to_approx_dt FlNum I even v dt tg in
+  (fst r, to_f FlNum (snd r)) = interp_approx even v dt tg.
+Proof. exact P_gen_c14.gen_interp_array_R. Qed.
+Theorem C14_interp_is_source : forall (I : list R -> list R -> list R -> list R),
+  (forall ts v, I ts (map IZR (zrange (Z.of_nat (length v)))) v = map (np_interp v) ts) ->
+  forall even (v : list R) dt tg,
+  gen_interp_to_approx_dt FlNum I even v dt tg = interp_approx even v dt tg.
+Proof. exact P_gen_c14.gen_interp_R. Qed.
+Theorem C14_resample_is_source : forall (RS : list R -> nat -> list R) even (v : list R) dt tg,
+  gen_resample_to_approx_dt FlNum RS even v dt tg = resample_approx RS even v dt tg.
+Proof. exact P_gen_c14.gen_resample_R. Qed.
+
+(** for ANY float operations the generated functions are compositions of five scalar observables with the oracles:
+    [g_factor] = `factor` after the if / elif / else, [g_raw] = `new_npts` before the even rule, [g_npts] = the number of
+    grid points (2 * int(x / 2) or len(np.arange(x))), [g_rs] = the count given to scipy, [g_newdt] = dt / factor *)
+Theorem C14_generated_shape : forall (F : Type) (ops : FlOps F) (I : list F -> list F -> list F -> list F)
+    (RS : list F -> nat -> list F) even (v : list F) dt tg,
+  let n := Z.of_nat (length v) in
+  gen_interp_to_approx_dt ops I even v dt tg =
+    (I (map (fun i => f_div ops (f_ofZ ops i) (to_f ops (g_factor ops dt tg))) (zrange (g_npts ops even dt tg n)))
+       (map (f_ofZ ops) (zrange n)) v, g_newdt ops dt tg) /\
+  gen_resample_to_approx_dt ops RS even v dt tg =
+    (let out := RS v (Z.to_nat (g_rs ops dt tg n)) in
+     if even then firstn (Z.to_nat (g_half ops (PInt (g_rs ops dt tg n)))) out else out, g_newdt ops dt tg).
+Proof.
+  intros F ops I RS even v dt tg n. split; [exact (P_gen_c14.gen_interp_shape ops I even v dt tg)|].
+  exact (P_gen_c14.gen_resample_shape ops RS even v dt tg).
+Qed.
+(** binary64 reading of the scalar observables = the kernel of model/M_timestep.v (no hypothesis at all) *)
+Theorem C14_scalars_are_source_b64 : forall (dt tg : b64) (n : Z),
+  to_f FlB64 (g_factor FlB64 dt tg) = snd (factor_b64 dt tg) /\
+  g_newdt FlB64 dt tg = newdt_b64 dt tg /\
+  pyQ (g_raw FlB64 dt tg n) = npts_raw_b64 (factor_b64 dt tg) n /\
+  g_npts FlB64 false dt tg n = npts_b64 false dt tg n /\
+  g_rs FlB64 dt tg n = rs_count_b64 dt tg n.
+Proof.
+  intros dt tg n. split; [exact (P_gen_c14.g_factor_b64 dt tg)|]. split; [exact (P_gen_c14.g_newdt_b64 dt tg)|].
+  split; [exact (P_gen_c14.g_raw_b64 dt tg n)|]. split; [exact (P_gen_c14.g_npts_odd_b64 dt tg n)|].
+  exact (P_gen_c14.g_rs_b64 dt tg n).
+Qed.
+(** the even rule `2 * int(x / 2)`: for EVERY binary64 x (finite or not, normal or subnormal) the truncation of the
+    binary64 quotient x / 2.0 is the truncation of the exact half -- so the model's exact x / 2 is not an idealisation *)
+Theorem C14_even_rule_b64 : forall x : b64, ftrunc (fdiv x (fofZ 2)) = Qtrunc (fQ x / 2).
+Proof. exact P_gen_c14.half_b64. Qed.
+(** binary64 reading of the whole functions.  Guard (only when even = True, only where an INT meets the even rule): the
+    int is in [0, 2^53], so that its conversion to float is exact (the model divides the exact integer); this is
+    k * len in the refinement branch of the interpolation, and the resampled count in the Fourier variant. *)
+Theorem C14_interp_array_is_source_b64 : forall (I : list b64 -> list b64 -> list b64 -> list b64) even (v : list b64) dt tg,
+  let n := Z.of_nat (length v) in
+  (even = true -> match fst (factor_b64 dt tg) with FRef k => (0 <= k * n <= 2 ^ 53)%Z | _ => True end) ->
+  gen_interp_array_to_approx_dt FlB64 I even v dt tg =
+  (I (map (fun i => fdiv (fofZ i) (snd (factor_b64 dt tg))) (zrange (npts_b64 even dt tg n))) (map fofZ (zrange n)) v,
+   PFloat (newdt_b64 dt tg)).
+Proof. exact P_gen_c14.gen_interp_array_b64. Qed.
+Theorem C14_interp_is_source_b64 : forall (I : list b64 -> list b64 -> list b64 -> list b64) even (v : list b64) dt tg,
+  let n := Z.of_nat (length v) in
+  (even = true -> match fst (factor_b64 dt tg) with FRef k => (0 <= k * n <= 2 ^ 53)%Z | _ => True end) ->
+  gen_interp_to_approx_dt FlB64 I even v dt tg =
+  (I (map (fun i => fdiv (fofZ i) (snd (factor_b64 dt tg))) (zrange (npts_b64 even dt tg n))) (map fofZ (zrange n)) v,
+   newdt_b64 dt tg).
+Proof. exact P_gen_c14.gen_interp_b64. Qed.
+Theorem C14_resample_is_source_b64 : forall (RS : list b64 -> nat -> list b64) even (v : list b64) dt tg,
+  let n := Z.of_nat (length v) in
+  (even = true -> (0 <= rs_count_b64 dt tg n <= 2 ^ 53)%Z) ->
+  gen_resample_to_approx_dt FlB64 RS even v dt tg =
+  (let out := RS v (Z.to_nat (rs_count_b64 dt tg n)) in
+   if even then firstn (Z.to_nat (npts_rs_b64 true dt tg n)) out else out,
+   newdt_b64 dt tg).
+Proof. exact P_gen_c14.gen_resample_b64. Qed.
+(** the defaults of the three signatures *)
+Theorem C14_defaults_are_source :
+  gen_interp_array_to_approx_dt_default_target_dt = (1 # 100)%Q /\ gen_interp_array_to_approx_dt_default_even = true /\
+  gen_interp_to_approx_dt_default_target_dt = (1 # 100)%Q /\ gen_interp_to_approx_dt_default_even = true /\
+  gen_resample_to_approx_dt_default_target_dt = (1 # 100)%Q /\ gen_resample_to_approx_dt_default_even = true.
+Proof. repeat split; reflexivity. Qed.
+
+(** NOT covered by the source-text tie: np.interp and scipy.signal.resample themselves (oracles: the first one enters
+    through its value on the unit grid, which is the model's [np_interp]; the second one is arbitrary); the translator's
+    reading of Python / NumPy arithmetic (header of gen/Gen_c14.v: int vs float operands, int / int as the float
+    quotient of the converted operands, np.arange(x) as ceil(x) entries, v[:k] as firstn for k >= 0, .npts as len);
+    in binary64, the even rule applied to an INT above 2^53 (the guard above).
+    Relative to the NOT-proved list further up: item (b) is narrowed -- the binary64 sample counts [npts_b64],
+    [rs_count_b64], [npts_rs_b64] are now what the SOURCE TEXT computes when read in binary64 (float product fl(q * len),
+    quotient fl(len / m), int(), ceil), and the model's exact x / 2 in the even rule is proved to be the binary64
+    computation for every float ([C14_even_rule_b64]); still NOT proved there: the property clauses (duration, parity,
+    retained samples) for these binary64 counts, and np.interp's own roundings.  Item (c) "kernel = code" now has a
+    static half: kernel = generated reading of the source (this section); generated reading = NumPy's execution remains
+    the correspondence. *)
+
+(** non-vacuity: the hypothesis on the oracle is met by the model's np.interp; the generated text runs at Q and gives the
+    run of [C14_run_Q]; in binary64 (dt = 1.0, target = 49.0, 100 samples, even) the guard holds and 2 grid points at
+    step 49.00000000000001 come out, the first grid point being 0 / fl(1/49) *)
+Example C14_source_nonvacuous :
+  (forall ts (v : list R), (fun ts _ v => map (np_interp v) ts) ts (map IZR (zrange (Z.of_nat (length v)))) v = map (np_interp v) ts) /\
+  gen_interp_to_approx_dt (FlNum (T:=Q)) (fun ts _ v => map (np_interp v) ts) false [1; 3; 2]%Q 2%Q 1%Q =
+    ([1; 2; 3; 5 # 2; 2; 2]%Q, 1%Q) /\
+  gen_interp_to_approx_dt (FlNum (T:=Q)) (fun ts _ v => map (np_interp v) ts) true [1; 3; 2; 7; 5]%Q 1%Q 2%Q = ([1; 2]%Q, 2%Q) /\
+  (let dt := b64_bits 4607182418800017408 in let tg := b64_bits 4632092954238910464 in
+   let v := repeat dt 100 in
+   let r := gen_interp_to_approx_dt FlB64 (fun ts _ _ => ts) true v dt tg in
+   match fst (factor_b64 dt tg) with FRef k => (0 <= k * 100 <= 2 ^ 53)%Z | _ => True end /\
+   map bits_b64 (fst r) = [0; 4632092954238910465]%Z /\ bits_b64 (snd r) = 4632092954238910465%Z).
+Proof.
+  split; [intros ts v; reflexivity|]. split; [vm_compute; reflexivity|]. split; [vm_compute; reflexivity|].
+  cbv zeta. split; [vm_compute; exact I|]. split; vm_compute; reflexivity.
+Qed.
